@@ -25,6 +25,7 @@ RULE = (
     "deterministic PRNG) and a walk of <=40 steps; at every step up to 48 proposed updates are applied to the current value "
     "(breadth) and one, chosen by the scenario, becomes the next value (depth); non-trivial = the walk applied at least one "
     "merge, one split and one move; distinct = distinct event-log SHA-256"
+    '; fault injection in 8% of the runs: the random source raises at the k-th draw of initial() or of candidates() at one step; the same builder is asked again and the walk may resume from one of the three previous values'
 )
 STATE_MEASURE = "distinct canonical partitions (sorted blocks of sorted cells) reached, per board size"
 COMPONENTS = {
